@@ -579,6 +579,7 @@ ELEMENT_INPUTS = [
     b"+-2", b"--5", b"-+1", b"2e+-3", b"1e--5", b"1", b"+1", b"-1", b"1.5", b".5", b"1.", b"-.5", b"+0.0", b"1e5", b"1E5", b"1e+5", b"1E-5", b"1.5e10", b".5E2", b"1e40000", b"1e-40000", b"0e999999", b"-2.5E+99999",
     b"1" + b"0" * 40, b"0." + b"0" * 40 + b"1", b"1e", b"1e+", b".", b"-", b"+.", b"-e5", b"1,2", b"1 ,2", b"1;", b"1\n", b"1 2", b"1 V", b"1V", b"1 mV", b"1.5e3 KHZ", b"5. KV", b"5.KV", b"-2. MIN", b"5.E3 HZ", b"12.VPK", b".5 S", b"+.5E-1 MV", b"5 . V", b"1 V/S", b"1 V.S-1",
     b"1 ABCDEFGHIJKL", b"1 ABCDEFGHIJKLM", b"1 " + b"V" * 256, b"1 " + b"V" * 268 + b";", b"1V 2", b"1 V;", b"1 V ,2", b"1.5.5", b"1..", b"12345678901234567890123",
+    b"#B" + b"1" * 64, b"#B1" + b"0" * 64,
     b"#H10", b"#h10", b"#Q10", b"#q10", b"#B10", b"#b10", b"#Z10", b"#Q1777777777777777777777", b"#Q2000000000000000000000", b"#Q3000000000000000000000", b"#Q7777777777777777777777",
     b"#B" + b"1" * 64, b"#B" + b"1" * 65, b"#H+2A", b"#Q+17", b"#B-1",
     b"#HFF", b"#hff", b"#Q17", b"#q17", b"#B101", b"#b101", b"#H", b"#HG", b"#Q8", b"#B2", b"#X10", b"#HFF ,", b"#HFFG", b"#HFFFFFFFFFFFFFFFF", b"#H10000000000000000", b"#B1 ;", b"#Q7x",
